@@ -206,9 +206,7 @@ __CPROVER_ensures(C18_CTOR_LEDGER(__CPROVER_return_value, __CPROVER_old(g_led.li
 
 /* =============================== C16: session table ============================================= */
 #define ST_N SESSION_TABLE_MAX_ENTRIES
-static inline bool v_key_eq(const session_entry *e, const uint8_t *mac, uint16_t gen) {
-    return v_mac_eq(e->mapper_mac, mac) && e->generation == gen;
-}
+#define v_key_eq(e_, mac_, gen_) (v_mac_eq((e_)->mapper_mac, (mac_)) && (e_)->generation == (gen_))
 /* abstract view: number of live sessions, membership, "every live session complete" */
 /* the sum is taken in 8-bit arithmetic (16 one-bit summands): 32-bit adder chains made "count = live sessions"
  * after an insertion a 3-minute SAT problem */
@@ -263,11 +261,9 @@ static inline bool v_entry_same_v(session_entry a, session_entry b) {
            a.state == b.state && a.complete == b.complete && a.valid == b.valid &&
            a.last_activity_ts == b.last_activity_ts && a.created_ts == b.created_ts;
 }
-static inline bool v_key_eq_v(session_entry e, const uint8_t *mac, uint16_t gen) {
-    return v_mac_eq(e.mapper_mac, mac) && e.generation == gen;
-}
+#define v_key_eq_v(e_, mac_, gen_) (v_mac_eq((e_).mapper_mac, (mac_)) && (e_).generation == (gen_))
 #define v_entry_same(pa, pb) v_entry_same_v(*(pa), *(pb))
-static inline bool v_live_key_v(session_entry e, const uint8_t *mac, uint16_t gen) { return e.valid && v_key_eq_v(e, mac, gen); }
+static inline bool v_live_key_v(session_entry e, const uint8_t *mac, uint16_t gen) { return e.valid && v_mac_eq(e.mapper_mac, mac) && e.generation == gen; }
 #define GJ_OK (g_j < ST_N)
 
 session_table *session_table_create(void)
